@@ -161,6 +161,7 @@ public:
 		// And empty() doesn't guarantee the list is still empty after the function returned.
 		//std::lock_guard<Mutex> lockGuard(mutex);
 
+		EVENTPP_VERIF_POINT("callbacklist.empty.unlocked-read", this);
 		return ! head;
 	}
 
@@ -177,6 +178,7 @@ public:
 		if(head) {
 			node->previous = tail;
 			tail->next = node;
+			EVENTPP_VERIF_POINT("callbacklist.append.mid", this);
 			tail = node;
 		}
 		else {
@@ -196,6 +198,7 @@ public:
 		if(head) {
 			node->next = head;
 			head->previous = node;
+			EVENTPP_VERIF_POINT("callbacklist.prepend.mid", this);
 			head = node;
 		}
 		else {
@@ -211,6 +214,7 @@ public:
 		// Disable this assertion because it's too slow in debug mode.
 		//assert(before.expired() || ownsHandle(before));
 
+		EVENTPP_VERIF_POINT("callbacklist.insert.unlocked-lock", this);
 		NodePtr beforeNode = before.lock();
 		if(beforeNode) {
 			NodePtr node(doAllocateNode(callback));
@@ -235,6 +239,7 @@ public:
 		std::lock_guard<Mutex> lockGuard(mutex);
 
 		auto node = handle.lock();
+		EVENTPP_VERIF_POINT("callbacklist.remove.mid", this);
 		if(node) {
 			doFreeNode(node);
 			return true;
@@ -248,6 +253,7 @@ public:
 		std::lock_guard<Mutex> lockGuard(mutex);
 
 		auto node = handle.lock();
+		EVENTPP_VERIF_POINT("callbacklist.ownshandle.mid", this);
 		if(node) {
 			while(node->previous) {
 				node = node->previous;
@@ -306,6 +312,7 @@ public:
 		const Counter counter = currentCounter.load(std::memory_order_acquire);
 
 		while(node) {
+			EVENTPP_VERIF_POINT("callbacklist.traverse.unlocked-counter", this);
 			if(node->counter != removedCounter && counter >= node->counter) {
 				node->callback(args...);
 				if(! CanContinueInvoking::canContinueInvoking(args...)) {
@@ -335,6 +342,7 @@ private:
 		const Counter counter = currentCounter.load(std::memory_order_acquire);
 
 		while(node) {
+			EVENTPP_VERIF_POINT("callbacklist.traverse.unlocked-counter", this);
 			if(node->counter != removedCounter && counter >= node->counter) {
 				if(! f(node)) {
 					return false;
@@ -368,6 +376,7 @@ private:
 	{
 		node->previous = beforeNode->previous;
 		node->next = beforeNode;
+		EVENTPP_VERIF_POINT("callbacklist.insert.mid", this);
 		if(beforeNode->previous) {
 			beforeNode->previous->next = node;
 		}
@@ -391,6 +400,7 @@ private:
 		if(node->previous) {
 			node->previous->next = node->next;
 		}
+		EVENTPP_VERIF_POINT("callbacklist.free.mid", this);
 
 		// Mark it as deleted, this must be before the assignment of head and tail below,
 		// because node can be a reference to head or tail, and after the assignment, node
@@ -428,6 +438,7 @@ private:
 				std::lock_guard<Mutex> lockGuard(mutex);
 				NodePtr node = head;
 				while(node) {
+					EVENTPP_VERIF_POINT("callbacklist.counter-overflow.mid", this);
 					node->counter = 1;
 					node = node->next;
 				}
